@@ -446,16 +446,31 @@ def limit_counter(ik):
     if len(incs) != 1:
         return False, 'counter `%s` incremented %d times' % (cmpv, len(incs))
     inc = incs[0]
-    guarded = None
-    for n in ast.walk(ik.node):
-        if isinstance(n, ast.If) and any(x is inc for b in n.body for x in ast.walk(b)):
-            guarded = n
-    if guarded is None:
+    # the counter counts exactly the keys handed out: within one round of the loop the increment and the yield are reached under
+    # the same conditions, and those conditions include the outcome of the predicates (not only the comparison with the limit)
+    from .. import paths as _paths
+    loops = [n for n in ast.walk(ik.node) if isinstance(n, (ast.For, ast.While)) and any(x is inc for x in ast.walk(n))]
+    if not loops:
+        return False, 'counter `%s` is not incremented in the listing loop' % cmpv
+    loop = loops[-1]
+    try:
+        pi = _paths.paths_to(loop.body, lambda x: x is inc)
+        py = _paths.paths_to(loop.body, lambda x: isinstance(x, ast.Yield))
+    except _paths.Unsupported as ex:
+        raise AnalysisError('listing loop has a shape the path table does not model: %s' % ex)
+    key = lambda cs: tuple(sorted((norm(c), p) for c, p in cs))
+    ci, cy = {key(cs) for _, cs in pi}, {key(cs) for _, cs in py}
+    if not cy:
+        return False, 'the loop that increments `%s` does not yield the key' % cmpv
+    if ci != cy:
+        return False, 'counter `%s` is incremented under %s but a key is yielded under %s' % (
+            cmpv, sorted(' and '.join(('' if p else 'not ') + c for c, p in k) or 'always' for k in ci),
+            sorted(' and '.join(('' if p else 'not ') + c for c, p in k) or 'always' for k in cy))
+    free = [k for k in ci if not any('limit' not in c for c, p in k)]
+    if free:
         return False, 'counter `%s` is incremented unconditionally' % cmpv
-    has_yield = any(isinstance(x, (ast.Yield,)) for b in guarded.body for x in ast.walk(b))
-    if not has_yield:
-        return False, 'the branch that increments `%s` does not yield the key' % cmpv
-    return True, 'counter `%s` incremented in the branch `if %s` that yields' % (cmpv, norm(guarded.test))
+    return True, 'counter `%s` incremented exactly where a key is yielded (%s)' % (
+        cmpv, '; '.join(' and '.join(('' if p else 'not ') + c for c, p in k) for k in sorted(ci)))
 
 
 def passthrough(repo, cas, fac):
